@@ -448,6 +448,13 @@ def init_sites(F, R):
             R.check(src_ok and ord_ok, 'B.C16.init', key,
                     '%s initialises effects with %s%s' % (b.path, d, '' if ord_ok else ' and not before handing the track to the audio thread'),
                     detail={'site': b.path, 'rate': d}, where=b.where(bb))
+            # ... on every path that goes on to hand the track over: `init` is the only hook that tells an effect the internal
+            # buffer size, whatever the rate is (a backend may report its real rate only later, through on_change_sample_rate)
+            from ..rules import must_pass_f
+            targets = ins if ins else b.return_blocks()
+            R.check(must_pass_f(b, targets, [bb]), 'B.C16.init', key + '|every-path',
+                    '%s can hand the track over / return without having initialised its effects (the call is skipped on some path)' % b.path,
+                    detail={'site': b.path}, where=b.where(bb), nontrivial=False)
     R.floor('B.C16.init', n, 8)
     # every creation path that inserts a Track/SendTrack initialises it first
     for b in F.bodies:
